@@ -131,6 +131,9 @@ class SyncInterpreter(BaseInterpreter[TContext, TEvent]):
         # ⚙️ Initialize synchronous-specific attributes
         self._event_queue: Deque[Union[Event, DoneEvent, AfterEvent]] = deque()
         self._is_processing: bool = False
+        #: Serialises the claim of the drain loop between the caller's thread
+        #: and the engine's own timer / delayed-send / actor threads.
+        self._drain_lock = threading.Lock()
         self._after_threads: Dict[str, threading.Thread] = {}
         self._after_events: Dict[str, threading.Event] = {}
         #: Cancellation flags for pending delayed sends, released by `stop()`.
@@ -337,10 +340,14 @@ class SyncInterpreter(BaseInterpreter[TContext, TEvent]):
         If event processing is already underway, this method returns immediately
         to prevent re-entrant execution.
         """
-        if self._is_processing:
-            return
-
-        self._is_processing = True
+        # 🔒 Claim the drain atomically. The engine's own timer, delayed-send
+        #    and actor threads call `send()` too; with an unlocked
+        #    check-then-set two of them could both see the flag clear and
+        #    process events concurrently.
+        with self._drain_lock:
+            if self._is_processing:
+                return
+            self._is_processing = True
         # 🛟 Bound the macrostep. The `raise` built-in re-enters this queue, so
         #    an action that raises its own trigger event feeds itself forever.
         #    `max_iterations` previously guarded only the eventless (`always`)
@@ -383,6 +390,12 @@ class SyncInterpreter(BaseInterpreter[TContext, TEvent]):
         finally:
             self._is_processing = False
             logger.debug("🎉 Event processing cycle completed. Queue empty.")
+        # 🔁 Another thread may have queued an event after the last emptiness
+        #    check but before the flag was released; it saw the flag set and
+        #    returned, so without this re-check its event would sit in the
+        #    queue until some later send() happened to drain it.
+        if self._event_queue and self.status == "running":
+            self._process_event_queue()
 
     # -------------------------------------------------------------------------
     # ⚙️ Core State Transition Logic (Private)
